@@ -95,6 +95,17 @@ theorem findLoop_spec (ord : Order) (rule : Rule) (P : Chain → Prop)
         simpa using hp
       · exact ih _ (hstep n c hc)
 
+/-! ## the loops as written refine to the forms the theorems are about -/
+
+/-- `FindConversionChain` written loop by loop as in chain.go (`searchScan`/`pickScan` with their
+`return`s and slices, `passLoop` with the `newPaths` map filled inside the nested ranges) computes
+exactly `find`; every theorem below therefore holds of `findCode`, which is what the driver runs. -/
+theorem code_loops_refine (ord : Order) (c : Chain) (rule : Rule) :
+    findCode ord c rule = find ord c rule ∧
+    (∀ entries, searchPathLoop entries rule = searchPath entries rule) ∧
+    (∀ n, passLoop ord n c rule = mergeAll [] (candidates ord n c rule)) :=
+  ⟨findCode_eq ord c rule, fun e => searchPathLoop_eq e rule, fun n => passLoop_eq ord n c rule⟩
+
 /-! ## C15.1 soundness -/
 
 theorem found_is_chain {ord : Order} {m : Nat} {rules : List Rule} {c : Chain} {rule : Rule}
